@@ -122,6 +122,17 @@ def gen(tier, seed, info):
             yield "cb2=- %s %s r0" % (pre, tok)
     info["lifetime_cases"] = nlt
     n += nlt
+    # ---- the relative entry points (tickit_watch_timer_after_msec / _after_tv), delay 0 included: a deadline like any
+    #      other -- in deadline order with the timers registered by absolute time, before the deferred callbacks
+    nrel = 0
+    for z in ["ta0:0:1", "tu0:0:1", "ta0:2:1", "tu1:0:1", "ta1:0:1", "tu999:6:1"]:
+        for others in ["t500:0:2", "t0:0:2", "t500:0:2 l0:2", "t-10:0:2 t700:2:2", "l2:2 t1:0:2"]:
+            for tail in ["r1000", "r0 r1000", "o o", "r0"]:
+                nrel += 2
+                yield "cb1=- cb2=- %s %s %s" % (z, others, tail)
+                yield "cb1=- cb2=%s %s %s r0" % (z, others, tail)
+    info["relative_timer_cases"] = nrel
+    n += nrel
     info["chain_cases"] = nch
     n += nch
     # ---- cancel whose UNBIND notification registers a replacement (re-entrancy of tickit_watch_cancel)
